@@ -86,6 +86,11 @@ def go_test(ctx, pkg, run, env=None, timeout=600, tags="verif", race=False):
     if race:
         cmd.append("-race")
         e["CGO_ENABLED"] = "1"
+    cov = os.environ.get("VERIF_COVER")
+    if cov:
+        # statement coverage of olric's own packages by this driver (tools/coverage.sh): a map of what the drivers never reach
+        os.makedirs(cov, exist_ok=True)
+        cmd += ["-coverpkg=github.com/olric-data/olric/...", "-coverprofile=%s/%s-%s-%s.out" % (cov, ctx.prop, pkg, run)]
     cmd.append("./" + pkg + "/")
     t0 = time.time()
     try:
